@@ -17,7 +17,11 @@ from fractions import Fraction
 from harness import core, runner, tlc, langcheck
 
 OPS = ['or', 'and', '==', '!=', '<', '<=', '>', '>=', '+', '-', '*', '/', '%', '^']
-PRELUDE = ('assign x 4 define M 6 brightness 9 define sq with a begin return {a * a} end '
+# sq returns out of two nested loops over the lights (two of them, see POP): a user call in operand position then has loop
+# frames to unwind while the operands to its left wait on the evaluation stack - the value must still be a * a
+POP = [dict(name=n, group='G', location='L', kind='plain', zones=0, h=0, w=0, colour=[1, 2, 3, 3500], power=0) for n in ('p1', 'p2')]
+PRELUDE = ('assign x 4 define M 6 brightness 9 define sq with a begin repeat all as l1 begin repeat all as l2 begin return {a * a} end end '
+           'return {a * a} end '
            'define show with a begin print a end\n')
 OPERANDS = {                       # text -> (rational, is_float)
     '2': (Fraction(2), False), '3': (Fraction(3), False), '5': (Fraction(5), False), '7': (Fraction(7), False),
@@ -278,7 +282,7 @@ def run(report, replay=None):
     if len(values) != len(lists):
         raise tlc.MachineryError('Expr (generation): %d values for %d lists' % (len(values), len(lists)))
     # phase 2: place each decided list in positions and run
-    world = runner.World([])
+    world = runner.World(POP)
     rows, texts = [], {}
     placed = []
     for i, toks in enumerate(lists):
